@@ -23,6 +23,8 @@ def run(ctx):
     # are conditions of this property (common.AUDIT_CLAIMS)
     quoter_audits(ctx, ch2=False)
     pq = PyQuoter(ctx, model)       # policies of the pure-Python quoter for the table checks below (audited just above)
+    from ..rules.unquoters import pending_flush
+    pending_flush(ctx, model, "pyx")       # no emission of the compiled unquoter overtakes the pending multi-byte buffer
     for b in ("py", "pyx"):
         u = Unquoter(ctx, model, b)
         u.audit()
